@@ -94,9 +94,12 @@ Ltac upd_cases :=
 
 (* ---------------------------------------------------------------------------------------- *)
 (* the deadline invariant *)
+Definition conn_ts (w : wk) : Prop := ts w = TRcmd \/ ts w = TCanceled.
 Definition fresh (s : gst) (w : wk) : Prop :=
   match pc w with
-  | PWantA | PHoldA | PConn0 => start w = now s
+  | PWantA => start w = now s
+  | PHoldA | PConn0 => start w = now s /\ conn_ts w
+  | PInConn => conn_ts w
   | PHoldB => conn w = now s
   | _ => True
   end.
@@ -133,6 +136,8 @@ Proof.
   unfold killable, hang_due. destruct (pc w), (behof c i), (ts w); try discriminate;
     destruct (eintr w); cbn [negb andb]; try discriminate.
   - destruct (0 <? tconn c) eqn:E; [|discriminate]. cbn [andb]. intros H1 H2. inversion H2; subst. lia.
+  - destruct (0 <? tconn c) eqn:E; [|discriminate]. cbn [andb]. destruct (start w =? -1) eqn:E2; cbn [negb andb]; [discriminate|].
+    intros H1 H2. inversion H2; subst. lia.
   - destruct (0 <? tcmd c) eqn:E; [|discriminate]. cbn [andb]. intros H1 H2. inversion H2; subst. lia.
 Qed.
 
@@ -159,13 +164,13 @@ Qed.
 
 Lemma fresh_tick s w : fresh s w -> calm_pc w = true ->
   fresh (mkg (idx s) (tc s) (m0 s) (m1 s) (d s) (ws s) (now s + 1) (wd s) (sp s) (pend s) (last s) (exited s)) w.
-Proof. unfold fresh, calm_pc. destruct (pc w); auto; discriminate. Qed.
+Proof. unfold fresh, calm_pc, conn_ts. destruct (pc w); cbn [now]; auto; discriminate. Qed.
 
 Lemma fresh_same_now s s' w : now s' = now s -> fresh s w -> fresh s' w.
 Proof. unfold fresh. intros ->. auto. Qed.
 
 Lemma fresh_cancel1 s w : fresh s w -> fresh s (cancel1 w).
-Proof. unfold fresh, cancel1. destruct (ts w); auto. Qed.
+Proof. unfold fresh, cancel1, conn_ts. destruct (ts w) eqn:E; cbn [pc ts set_ts start conn]; rewrite ?E; auto; destruct (pc w); intuition congruence. Qed.
 
 Lemma fresh_step s e s' : InvT s -> step c s e = Some s' -> (e = ETick -> calm s = true) ->
   forall i w, nth_error (ws s') i = Some w -> fresh s' w.
@@ -173,11 +178,11 @@ Proof.
   intros [Hf _ _] H Ht.
   inv_step H; cbn [ws setw setw1 setd setsp]; intros ix wx Hn; upd_cases;
     try (eapply fresh_same_now; [|eapply Hf; eauto]; reflexivity);
-    try solve [unfold fresh; cbn [pc now set_pc setw setw1 start conn]; auto].
+    try solve [unfold fresh, conn_ts; cbn [pc ts now set_pc setw setw1 start conn]; auto].
   all: try solve [match goal with Hw : nth_error (ws _) ?i = Some ?w |- _ =>
-                    pose proof (Hf _ _ Hw) as Hfw; unfold fresh in *; cbn [pc now set_pc setw setw1 start conn] in *;
-                    match goal with E : pc w = _ |- _ => rewrite E in Hfw end; auto end].
-  - pose proof (Hf _ _ Heqo) as Hfw. unfold fresh in *. cbn [pc now start conn] in *. exact Hfw.
+                    pose proof (Hf _ _ Hw) as Hfw; unfold fresh, conn_ts in *; cbn [pc ts now set_pc setw setw1 start conn] in *;
+                    match goal with E : pc w = _ |- _ => rewrite E in Hfw end; intuition (auto; congruence) end].
+  - pose proof (Hf _ _ Heqo) as Hfw. unfold fresh, conn_ts in *. cbn [pc ts now start conn] in *. exact Hfw.
   - rewrite nth_error_map_wk in Hn. destruct (nth_error (ws s) ix) as [w1|] eqn:E1; cbn in Hn; [|discriminate].
     inversion Hn; subst. apply fresh_cancel1. eapply fresh_same_now; [|eapply Hf; eauto]. reflexivity.
   - apply fresh_tick; [eapply Hf; eauto|]. eapply calm_pcs; eauto.
@@ -213,8 +218,12 @@ Qed.
 Lemma hang_due_pc i w t : hang_due c i w = Some t -> pc w = PInConn \/ pc w = PPoll.
 Proof. unfold hang_due. destruct (pc w); auto; discriminate. Qed.
 
-Lemma hang_due_cancel1 i w t : hang_due c i (cancel1 w) = Some t -> hang_due c i w = Some t.
-Proof. unfold hang_due, cancel1. destruct (ts w) eqn:E; cbn [pc ts set_ts eintr start conn]; rewrite ?E; auto; destruct (pc w), (behof c i); intros Hx; try discriminate Hx; auto. Qed.
+Lemma hang_due_cancel1 s i w t : fresh s w -> hang_due c i (cancel1 w) = Some t -> hang_due c i w = Some t.
+Proof.
+  unfold hang_due, cancel1, fresh, conn_ts. destruct (ts w) eqn:E; cbn [pc ts set_ts eintr start conn]; rewrite ?E; auto;
+    destruct (pc w), (behof c i); intros Hf Hx; try discriminate Hx; auto; try (destruct Hf; congruence).
+  destruct (eintr w), (0 <? tconn c), (start w =? -1); cbn [negb andb] in *; try discriminate; exact Hx.
+Qed.
 
 Ltac due_none := let t := fresh "t" in let Hd := fresh "Hd" in
   intros t Hd; apply hang_due_pc in Hd; cbn [pc set_pc] in Hd; destruct Hd; discriminate.
@@ -237,8 +246,10 @@ Proof.
   - (* EConnBegin *)
     intros t Hd. right. pose proof (Hf _ _ Heqo) as Hfw. unfold fresh in Hfw. rewrite Heqw0 in Hfw.
     unfold hang_due in Hd. cbn [pc ts eintr conn start] in Hd.
-    destruct (behof c i), (ts w); try discriminate. cbn [negb andb] in Hd.
-    destruct (0 <? tconn c) eqn:E; [|discriminate]. inversion Hd; subst. lia.
+    destruct Hfw as [Hst _].
+    destruct (behof c i), (ts w); try discriminate; cbn [negb andb] in Hd;
+      (destruct (0 <? tconn c) eqn:E; [|discriminate]); cbn [andb] in Hd;
+      try (destruct (start w =? -1); cbn [negb] in Hd; [discriminate|]); inversion Hd; subst; lia.
   - (* EPollIntr, not overdue: keep polling *)
     intros t Hd. right.
     unfold hang_due in Hd. cbn [pc ts eintr conn start] in Hd.
@@ -275,10 +286,10 @@ Proof.
     unfold Bound in *. cbn [wd ws now]. destruct (wd s) as [u|j].
     + destruct B as [B1 B2]. split; [exact B1|]. intros i w t Hw Hd.
       rewrite nth_error_map_wk in Hw. destruct (nth_error (ws s) i) as [w1|] eqn:E1; cbn in Hw; [|discriminate].
-      inversion Hw; subst. apply hang_due_cancel1 in Hd. eapply B2; eauto.
+      inversion Hw; subst. eapply hang_due_cancel1 in Hd; [|eapply Hf; eauto]. eapply B2; eauto.
     + intros i w t Hw Hd.
       rewrite nth_error_map_wk in Hw. destruct (nth_error (ws s) i) as [w1|] eqn:E1; cbn in Hw; [|discriminate].
-      inversion Hw; subst. apply hang_due_cancel1 in Hd. eapply B; eauto.
+      inversion Hw; subst. eapply hang_due_cancel1 in Hd; [|eapply Hf; eauto]. eapply B; eauto.
   - (* tick *)
     destruct (calm_sleep _ (Ht eq_refl)) as (u & Hu & Hlt).
     unfold Bound in *. cbn [wd ws now]. rewrite Hu in *. destruct B as [B1 B2]. split; [lia|exact B2].
